@@ -37,8 +37,17 @@ def apply(repo, m):
     return overlay
 
 
+def base_keys(prop, root):
+    from ..main import analyse
+    try:
+        ctx = analyse(prop, Repo(root))
+        return {o.key() for o in ctx.violations()}
+    except Exception:
+        return set()
+
+
 def evaluate(args):
-    m, root = args
+    m, root, base = args
     from ..main import analyse
     repo = Repo(root)
     try:
@@ -54,7 +63,8 @@ def evaluate(args):
         return (m['id'], 'analysis-error', str(e))
     except Exception as e:
         return (m['id'], 'analysis-error', 'internal %s: %s' % (type(e).__name__, e))
-    new = [o for o in ctx.violations() if match_known(m['prop'], o, known) is None]
+    # a variant is judged by what it adds to the verdict on the unmodified current tree
+    new = [o for o in ctx.violations() if match_known(m['prop'], o, known) is None and o.key() not in base]
     if m['kind'] == 'K':
         want = m.get('rule')
         hit = [o for o in new if want is None or o.rule == want or o.rule in (want if isinstance(want, (list, tuple)) else ())]
@@ -71,11 +81,12 @@ def evaluate(args):
 def run(prop=None, root=None, jobs=None):
     ms = load_mutants(prop)
     jobs = jobs or min(16, max(1, len(ms)))
+    bases = {p: base_keys(p, root) for p in sorted({m['prop'] for m in ms})}
     if len(ms) <= 2:
-        res = [evaluate((m, root)) for m in ms]
+        res = [evaluate((m, root, bases[m['prop']])) for m in ms]
     else:
         with ProcessPoolExecutor(max_workers=jobs) as ex:
-            res = list(ex.map(evaluate, [(m, root) for m in ms]))
+            res = list(ex.map(evaluate, [(m, root, bases[m['prop']]) for m in ms]))
     return ms, res
 
 
